@@ -362,18 +362,26 @@ InbandC ==
     /\ UNCHANGED <<cfgv, srv, cli, agr>>
 
 -----------------------------------------------------------------------------
+(* a stranger writes the next chunk of its script, then protocol-looking data *)
+StrayWrite(i) ==
+    /\ wn[i] < Len(ScriptChunks(script[i])) + MaxData
+    /\ (Rendezvous => unread[i] = <<>>)
+    /\ DialerWrite(i, NextChunk(i))
+
+PumpC   == Pumps /\ CPump
+PumpInS == Pumps /\ InbandS
+PumpInC == Pumps /\ InbandC
+
 Next ==
     \/ \E i \in Strays : Arrive(i)
-    \/ \E i \in Strays : /\ wn[i] < Len(ScriptChunks(script[i])) + MaxData
-                         /\ (Rendezvous => unread[i] = <<>>)
-                         /\ DialerWrite(i, NextChunk(i))
+    \/ \E i \in Strays : StrayWrite(i)
     \/ \E i \in Strays : DialerClose(i)
     \/ AAccept \/ AAcceptErr \/ ACheck
     \/ \E i \in Conns : HRead(i) \/ HReply(i) \/ HReplyFail(i) \/ HCas(i) \/ HCloseListener(i) \/ SPump(i)
     \/ CDial \/ CReturn \/ CWrite("hello") \/ CCheck2 \/ CWriteErr \/ ProxyReply \/ ProxyEof \/ RogueReply \/ CRead
     \/ SelectConn \/ TimerFires \/ CCleanup
     \/ SendAction \/ SRecvAction
-    \/ (Pumps /\ (CPump \/ InbandS \/ InbandC))
+    \/ PumpC \/ PumpInS \/ PumpInC
 
 Spec == Init /\ [][Next]_vars
 
